@@ -80,7 +80,7 @@ CLAIMED = {
                 'an SInteger computed on mathematical integers with truncating division, every partial result required to fit in 64 bits (overflow and zero divisors are outside the claim), exactly when no argument is a float; '
                 'otherwise an SFloat computed with the f64 operators on the arguments with every integer converted. The f64 operators and the integer-to-float cast are uninterpreted total functions in the proof '
                 '(that they are the IEEE-754 operations is not provable in Verus); a BOUNDED enumeration (labelled bounded, never counted) compares with Rust\'s own operators bit for bit, also through the infix parser.',
-        'note': 'Trusted: T6 (f64 + - * / and `i as f64` are deterministic total functions of their operands; axiom_f64_arith_is_a_function, i64_to_f64), T4 (rewrite R13 = core\'s definition of Iterator::fold for slice iterators), T1, T2, T5. '
+        'note': 'The infix forms `+ - * /` are proved to mean the functions add / subtract / multiply / divide on the two operands (parse_term #meaning, unit contexts_a, DESIGN 8.33 / 8.42). Trusted: T6 (f64 + - * / and `i as f64` are deterministic total functions of their operands; axiom_f64_arith_is_a_function, i64_to_f64), T4 (rewrite R13 = core\'s definition of Iterator::fold for slice iterators), T1, T2, T5. '
                 'Not covered: subtract()/divide() with no argument (Vec::remove(0) panics), the infix parser (string level, bounded only). The unification of the value with the other operand is proved under C13.',
         'technique': 'contract-based deductive verification (Verus) of extracted real code',
         'design_ref': 'DESIGN.md 5/C12 and 8.10',
